@@ -28,6 +28,9 @@ func c13(c *core.Check) {
 	c13RowBottom(c)
 	c13CellX(c)
 	c13MinWidth(c)
+	c13PadEdge(c)
+	c13FixedWidths(c)
+	c13SpacingCount(c)
 
 	r3 := c.Rule("R3", "the table layout code mirrors its side-symmetric assignments, sums margins, paddings and borders with consistent sides, and passes its named arguments in order", 8)
 	tfiles := map[string]bool{"tables.go": true}
@@ -700,3 +703,313 @@ func c13MinWidth(c *core.Check) {
 		r.Anchor("tableAndColumnsPreferredWidths: uses of adjust(…)")
 	}
 }
+
+// c13PadEdge: the edge the cells of a row are padded down to is the bottom of that row.
+func c13PadEdge(c *core.Check) {
+	p := c.Prog
+	r := c.Rule("R9", "a spanning cell covers its slots: in tableLayout the edge from which the bottom of a cell is subtracted to pad it (extra = edge − cell bottom) is, on every path, the row's own PositionY or PositionY + Height — never the bottom of the tallest ending cell, which may be above the row", 3)
+	n := 0
+	for _, fn := range p.FuncsOfPkg("html/layout") {
+		root := fn
+		for root.Parent() != nil {
+			root = root.Parent()
+		}
+		if root.Name() != "tableLayout" {
+			continue
+		}
+		fn := fn
+		isField := func(v ssa.Value, name string) (ssa.Value, bool) {
+			if call, ok := v.(*ssa.Call); ok && call.Call.IsInvoke() && call.Call.Method.Name() == "V" {
+				v = call.Call.Value
+			}
+			if mi, ok := v.(*ssa.MakeInterface); ok {
+				v = mi.X
+			}
+			ld, ok := v.(*ssa.UnOp)
+			if !ok || ld.Op != token.MUL {
+				return nil, false
+			}
+			fa, ok := ld.X.(*ssa.FieldAddr)
+			if !ok || core.FieldName(fa) != name {
+				return nil, false
+			}
+			return fa.X, true
+		}
+		// the padding subtraction: X − (cell.PositionY + cell.BorderHeight())
+		core.Instrs(fn, func(in ssa.Instruction) {
+			sub, ok := in.(*ssa.BinOp)
+			if !ok || sub.Op != token.SUB {
+				return
+			}
+			bottom, ok := sub.Y.(*ssa.BinOp)
+			if !ok || bottom.Op != token.ADD {
+				return
+			}
+			_, hasPos := isField(bottom.X, "PositionY")
+			bh, isCall := bottom.Y.(*ssa.Call)
+			if !hasPos || !isCall || bh.Call.StaticCallee() == nil || bh.Call.StaticCallee().Name() != "BorderHeight" {
+				return
+			}
+			phi, ok := sub.X.(*ssa.Phi)
+			if !ok {
+				return
+			}
+			for i, e := range phi.Edges {
+				n++
+				key := fmt.Sprintf("html/layout.tableLayout | edge the cells are padded to, definition %d", i+1)
+				ok := false
+				if _, is := isField(e, "PositionY"); is {
+					ok = true
+				} else if add, isAdd := e.(*ssa.BinOp); isAdd && add.Op == token.ADD {
+					bx, isP := isField(add.X, "PositionY")
+					by, isH := isField(add.Y, "Height")
+					if !isP || !isH {
+						bx, isP = isField(add.Y, "PositionY")
+						by, isH = isField(add.X, "Height")
+					}
+					ok = isP && isH && bx == by
+				}
+				r.Cond(ok, key, p.Pos(sub.Pos()), "the row's PositionY (+ Height)", "on this path the edge is not computed from the row's own position and height (the bottom of the tallest cell ending in the row can be above the top of the row: a rowspan=2 cell 10px high next to a 50px first row and an empty second row is not extended over its slots)")
+			}
+		})
+	}
+	if n == 0 {
+		r.Anchor("tableLayout: extra := rowBottomY - (cell.PositionY + cell.BorderHeight())")
+	}
+}
+
+// c13FixedWidths: the fixed layout never computes a negative column width.
+func c13FixedWidths(c *core.Check) {
+	p := c.Prog
+	r := c.Rule("R10", "no negative column in the fixed layout: in fixedTableLayout every quotient that becomes a column width has a dividend that cannot be negative — clamped with Max(·, 0), or a difference a − b computed only where a >= b was tested", 2)
+	fn := p.Fn("html/layout", "fixedTableLayout")
+	if fn == nil {
+		r.Anchor("html/layout.fixedTableLayout")
+		return
+	}
+	n := 0
+	core.Instrs(fn, func(in ssa.Instruction) {
+		q, ok := in.(*ssa.BinOp)
+		if !ok || q.Op != token.QUO {
+			return
+		}
+		if b, isB := q.Type().Underlying().(*types.Basic); !isB || b.Info()&types.IsFloat == 0 {
+			return
+		}
+		// only quotients whose divisor is a count (a converted len)
+		if !core.DerivesFrom(q.Y, func(v ssa.Value) bool {
+			call, ok := v.(*ssa.Call)
+			if !ok {
+				return false
+			}
+			b, ok := call.Call.Value.(*ssa.Builtin)
+			return ok && b.Name() == "len"
+		}) {
+			return
+		}
+		n++
+		key := "html/layout.fixedTableLayout | " + p.StmtTextAt(fn, q.Pos())
+		ok, how := false, "the dividend is neither clamped at 0 nor a difference guarded by a comparison of its terms"
+		switch d := q.X.(type) {
+		case *ssa.Call:
+			if cal := d.Call.StaticCallee(); cal != nil && cal.Name() == "Max" && len(d.Call.Args) == 2 {
+				for _, a := range d.Call.Args {
+					if k, isK := core.ConstFloat(a); isK && k == 0 {
+						ok, how = true, "dividend clamped with Max(·, 0)"
+					}
+				}
+			}
+		case *ssa.BinOp:
+			if d.Op == token.SUB {
+				var atoms []ssa.Value
+				pol := map[ssa.Value]bool{}
+				for _, a := range core.CondAtoms(fn) {
+					cmp, isCmp := a.(*ssa.BinOp)
+					if !isCmp {
+						continue
+					}
+					same := func(x, y ssa.Value) bool { return valueText(x) == valueText(y) }
+					switch {
+					case cmp.Op == token.GEQ && same(cmp.X, d.X) && same(cmp.Y, d.Y), cmp.Op == token.LEQ && same(cmp.X, d.Y) && same(cmp.Y, d.X):
+						atoms, pol[a] = append(atoms, a), true
+					case cmp.Op == token.LSS && same(cmp.X, d.X) && same(cmp.Y, d.Y), cmp.Op == token.GTR && same(cmp.X, d.Y) && same(cmp.Y, d.X):
+						atoms, pol[a] = append(atoms, a), false
+					}
+				}
+				if len(atoms) > 0 {
+					g, _ := core.GuardedBy(fn, q.Block(), atoms, func(m map[ssa.Value]bool) bool {
+						for a, v := range m {
+							if v == pol[a] {
+								return true
+							}
+						}
+						return false
+					})
+					if g {
+						ok, how = true, "difference computed only where its first term is at least the second"
+					}
+				}
+			}
+		}
+		r.Cond(ok, key, p.Pos(q.Pos()), how, how+": a spanning cell narrower than the columns it spans that already have a width gives the others a negative width (ColumnWidths = [375 -75])")
+	})
+	if n < 2 {
+		r.Anchor(fmt.Sprintf("fixedTableLayout: the quotients by a number of columns (%d found, 2 confirmed by reading)", n))
+	}
+}
+
+// valueText identifies a value up to reloads: loads of the same field of the same base, and calls of the same
+// niladic method on such loads, are the same quantity as long as no store intervenes (not checked: used only to
+// match a comparison with the difference it guards, a few instructions apart).
+func valueText(v ssa.Value) string {
+	switch x := v.(type) {
+	case *ssa.Call:
+		if x.Call.IsInvoke() && len(x.Call.Args) == 0 {
+			return valueText(x.Call.Value) + "." + x.Call.Method.Name() + "()"
+		}
+	case *ssa.MakeInterface:
+		return valueText(x.X)
+	case *ssa.UnOp:
+		if x.Op == token.MUL {
+			if fa, ok := x.X.(*ssa.FieldAddr); ok {
+				return fmt.Sprintf("%s.#%d", valueText(fa.X), fa.Field)
+			}
+		}
+	case *ssa.FieldAddr:
+		return fmt.Sprintf("&%s.#%d", valueText(x.X), x.Field)
+	}
+	return v.Name()
+}
+
+// c13SpacingCount cross-checks the two places that count the horizontal spacings of a table: the preferred widths
+// (the width given to the table includes count × border-spacing) and tableLayout (the columns are placed one spacing
+// apart).  Both must count the same columns, or the columns plus spacing do not fill the table.
+func c13SpacingCount(c *core.Check) {
+	p := c.Prog
+	r := c.Rule("R11", "the columns plus spacing fill the table: the number of horizontal spacings included in the table's width (tableAndColumnsPreferredWidths) and the number of spacings laid between the columns (tableLayout) are counted the same way — one per column on every iteration of both loops, or conditionally in both", 2)
+	pref := p.Fn("html/layout", "tableAndColumnsPreferredWidths")
+	lay := p.Fn("html/layout", "tableLayout")
+	if pref == nil || lay == nil {
+		r.Anchor("html/layout.tableAndColumnsPreferredWidths / tableLayout")
+		return
+	}
+	// preferred widths: the increments (+1) feeding the value stored in the field totalHorizontalBorderSpacing
+	var stored []ssa.Value
+	core.Instrs(pref, func(in ssa.Instruction) {
+		if st, ok := in.(*ssa.Store); ok {
+			if fa, ok := st.Addr.(*ssa.FieldAddr); ok && core.FieldName(fa) == "totalHorizontalBorderSpacing" {
+				stored = append(stored, st.Val)
+			}
+		}
+	})
+	var incs []*ssa.BinOp
+	core.Instrs(pref, func(in ssa.Instruction) {
+		bo, ok := in.(*ssa.BinOp)
+		if !ok || bo.Op != token.ADD {
+			return
+		}
+		if k, isK := core.ConstFloat(bo.Y); !isK || k != 1 {
+			return
+		}
+		if _, isPhi := bo.X.(*ssa.Phi); !isPhi {
+			return
+		}
+		for _, s := range stored {
+			if arithDerives(s, func(v ssa.Value) bool { return v == ssa.Value(bo) }) {
+				incs = append(incs, bo)
+				return
+			}
+		}
+	})
+	if len(stored) == 0 || len(incs) != 1 {
+		r.Anchor(fmt.Sprintf("tableAndColumnsPreferredWidths: the count of spacings stored in totalHorizontalBorderSpacing (%d stores, %d increments)", len(stored), len(incs)))
+		return
+	}
+	inc := incs[0]
+	loop := core.InnermostLoop(pref, inc.Block())
+	if loop == nil {
+		r.Anchor("tableAndColumnsPreferredWidths: the loop counting the spacings")
+		return
+	}
+	prefAlways, _ := core.EveryIterationPasses(loop, func(in ssa.Instruction) bool { return in == ssa.Instruction(inc) })
+
+	// tableLayout: the loops that append to ColumnPositions; the spacing is the value added or subtracted there
+	nLay := 0
+	layAlways := true
+	for _, fn := range p.FuncsOfPkg("html/layout") {
+		root := fn
+		for root.Parent() != nil {
+			root = root.Parent()
+		}
+		if root != lay {
+			continue
+		}
+		for _, l := range core.Loops(fn) {
+			appends := false
+			for b := range l.Blocks {
+				for _, in := range b.Instrs {
+					if st, ok := in.(*ssa.Store); ok {
+						if fa, ok := st.Addr.(*ssa.FieldAddr); ok && core.FieldName(fa) == "ColumnPositions" {
+							appends = true
+						}
+					}
+				}
+			}
+			if !appends {
+				continue
+			}
+			// the spacing: a loop-invariant float added to / subtracted from the running position
+			isSpacing := func(in ssa.Instruction) bool {
+				bo, ok := in.(*ssa.BinOp)
+				if !ok || (bo.Op != token.ADD && bo.Op != token.SUB) {
+					return false
+				}
+				if b, isB := bo.Type().Underlying().(*types.Basic); !isB || b.Info()&types.IsFloat == 0 {
+					return false
+				}
+				// a step of the running position: the left operand is the loop's phi or an earlier step
+				switch bo.X.(type) {
+				case *ssa.Phi, *ssa.BinOp:
+				default:
+					return false
+				}
+				// the column width is the element of the list ranged over; anything else is the spacing
+				if ld, ok := bo.Y.(*ssa.UnOp); ok && ld.Op == token.MUL {
+					if _, isElem := ld.X.(*ssa.IndexAddr); isElem {
+						return false
+					}
+				}
+				return true
+			}
+			found := false
+			for b := range l.Blocks {
+				for _, in := range b.Instrs {
+					if isSpacing(in) {
+						found = true
+					}
+				}
+			}
+			if !found {
+				continue
+			}
+			nLay++
+			if always, _ := core.EveryIterationPasses(l, isSpacing); !always {
+				layAlways = false
+			}
+		}
+	}
+	if nLay < 2 {
+		r.Anchor(fmt.Sprintf("tableLayout: the loops placing the columns one spacing apart (%d found, 2 confirmed by reading: ltr and rtl)", nLay))
+		return
+	}
+	r.Cond(layAlways, "html/layout.tableLayout | one spacing before every column", p.Pos(lay.Pos()), "the position advances by the spacing on every iteration", "a column is placed without a spacing on some iterations")
+	desc := func(b bool) string {
+		if b {
+			return "one per column"
+		}
+		return "only for some columns (conditional increment)"
+	}
+	r.Cond(prefAlways == layAlways, "html/layout.tableAndColumnsPreferredWidths | spacings counted as tableLayout lays them", p.Pos(inc.Pos()), "same count on both sides ("+desc(prefAlways)+")",
+		"the width of the table includes "+desc(prefAlways)+" spacing, tableLayout lays "+desc(layAlways)+": a column with no originating cell gets a spacing that the table's width does not contain, and the columns plus spacing overflow the table")
+}
+
